@@ -92,7 +92,7 @@ pub fn run(opts: &Opts, which: &'static str) -> i32 {
                     }
                 }
             }
-            Run::Panic(p) => {
+            Run::Panic(p, _ptail) => {
                 rep.count("panics(info)", 1);
                 rep.observe("panics(info)", &p.signature());
             }
